@@ -578,7 +578,16 @@ impl Deb822 {
     /// assert_eq!(d.to_string(), "");
     /// ```
     pub fn remove_paragraph(&mut self, index: usize) {
-        if let Some(index) = self.convert_index(index) {
+        // Position of the index-th paragraph among all children (which may
+        // start with comments or empty lines)
+        let position = self
+            .0
+            .children_with_tokens()
+            .enumerate()
+            .filter(|(_, node)| node.kind() == PARAGRAPH)
+            .nth(index)
+            .map(|(i, _)| i);
+        if let Some(index) = position {
             self.0.splice_children(index..index + 1, []);
             self.delete_trailing_space(index);
         }
